@@ -2,6 +2,7 @@
 # Offline setup after a fresh restore: generate case packages and build every checker once so
 # that the Go build cache is warm (the checks rebuild against /repo's working tree on every run).
 cd "$(dirname "$0")" || exit 1
+export VERIF_ROOT="$(pwd)"
 export GOFLAGS=-mod=mod GOPROXY=off GOSUMDB=off GOTOOLCHAIN=local
 mkdir -p bin gen evidence replays
 rc=0
